@@ -237,6 +237,8 @@ func c13apply(s types.Storage, o c13op) string {
 			return c13errClass(err)
 		}
 		return fmt.Sprintf("v:%d", n)
+	case "Cleanup":
+		return c13errClass(s.CleanupExpired())
 	case "SetExpiration":
 		return c13errClass(s.SetExpiration(o.Key, o.TTL))
 	case "GetExpiration":
@@ -384,6 +386,8 @@ func (md *c13model) step(o c13op, now time.Time) []string {
 		}
 		it.ctr += o.N
 		return []string{fmt.Sprintf("v:%d", it.ctr)}
+	case "Cleanup":
+		return []string{"ok"} // removes only what is already absent by the contract
 	case "SetExpiration":
 		if it == nil {
 			return []string{"notfound"}
@@ -766,6 +770,31 @@ func c13Concurrent(w *simrt.World) {
 			pl = append(pl, o)
 		}
 		plans = append(plans, pl)
+	}
+	// half of the runs: the keys start out expired but not yet swept (written with a 1 s lifetime, clock
+	// advanced past it) and one extra client runs the expiry sweep concurrently with the writers: by the
+	// contract an expired key is absent, so the sweep must never remove what a writer has just stored
+	if c.Intn(2, "expired.prelude") == 1 {
+		for _, k := range allowed {
+			switch k[0] {
+			case 's':
+				mem.Set(k, "stale", time.Second)
+			case 'l':
+				mem.SetList(k, []any{"stale"}, time.Second)
+			case 'c':
+				mem.Set(k, int64(7), time.Second)
+			case 'h':
+				mem.Set(k, map[string]any{"f0": "stale"}, time.Second)
+			}
+		}
+		w.Sleep(2*time.Second + 7*time.Millisecond)
+		var sweeps []c13op
+		for j := 0; j < 1+c.Intn(3, "nsweeps"); j++ {
+			sweeps = append(sweeps, c13op{Op: "Cleanup", Key: allowed[0]})
+		}
+		plans = append(plans, sweeps)
+		nclients++
+		w.Probe("concurrent.expired-prelude-with-sweep")
 	}
 	var hist []porcupine.Operation
 	var tasks []*simrt.Task
